@@ -18,7 +18,7 @@ import (
 //
 // Rule set (3 rules, so every execution model incl. N-M and DAG is applicable):
 //   r0: tin(req.Id); resp.Id = req.Id; step(req.Id, req.Mode); y = 1 / req.Div; seen(req.Id, resp.Id); tout(req.Id); return req.Id
-//   r1: return req.Id + 100
+//   r1: cf(7, 2); return req.Id + 100               (a call whose arguments are all constants and need converting)
 //   r2: opt(other.V); return req.Id + 200          ("other" is injected by some requests only)
 
 const poolRules = `
@@ -32,6 +32,7 @@ rule "r0" salience 10 begin
   return req.Id
 end
 rule "r1" salience 5 begin
+  cf(7, 2)
   return req.Id + 100
 end
 rule "r2" salience 1 begin
@@ -45,6 +46,7 @@ const (
 	modePanic = 1 // injected function panics inside the rule
 	modeGate  = 2 // blocks inside the rule until the harness opens the gate
 	modeError = 3 // a later statement of the rule fails (division by zero)
+	modeEmpty = 4 // degenerate request: empty name list / empty DAG (nothing to run)
 )
 
 type reqSpec struct {
@@ -131,6 +133,7 @@ func poolApis() map[string]interface{} {
 		"step": func(id, mode int64) { activePool.apis()["step"].(func(int64, int64))(id, mode) },
 		"seen": func(id, r int64) { activePool.apis()["seen"].(func(int64, int64))(id, r) },
 		"opt":  func(id, v int64) { activePool.apis()["opt"].(func(int64, int64))(id, v) },
+		"cf":   func(x int, y float32) {},
 	}
 }
 
@@ -227,7 +230,11 @@ func (st *poolState) issue(gp *engine.GenginePool, m *gx.PoolMethod, id int64, s
 		if spec.Mode == modeError {
 			div = 0
 		}
-		data["req"] = &PoolReq{Id: id, Mode: int64(spec.Mode), Div: div}
+		mode := int64(spec.Mode)
+		if spec.Mode == modeEmpty {
+			mode = modeOK
+		}
+		data["req"] = &PoolReq{Id: id, Mode: mode, Div: div}
 		data["resp"] = resp
 		if spec.Other && !m.ReqResp {
 			data["other"] = &PoolOther{V: id + 1000}
@@ -236,6 +243,9 @@ func (st *poolState) issue(gp *engine.GenginePool, m *gx.PoolMethod, id int64, s
 	p := gx.PoolCallParams{B: !st.cfg.StopOnErr, N: 1, M: 2, Names: []string{"r1", "r0", "r2"}, Dag: [][]string{{"r0"}, {"r1", "r2"}}}
 	if st.cfg.NM[0] > 0 {
 		p.N, p.M = st.cfg.NM[0], st.cfg.NM[1]
+	}
+	if spec.Mode == modeEmpty {
+		p.Names, p.Dag = []string{}, [][]string{}
 	}
 	rec.err, rec.res, rec.pan = gx.PoolCallGuarded(m, gp, data, p)
 	rec.resCopy = gx.CopyResult(rec.res)
@@ -422,7 +432,7 @@ func poolOracle(cfg poolCfg, m *gx.PoolMethod, st *poolState, ex *vsched.Exec) (
 			}
 			continue
 		}
-		if r.respID != r.id {
+		if r.respID != r.id && !(r.spec.Mode == modeEmpty && st.log.Count("in", r.id) == 0) {
 			bad(m.Name+":resp", fmt.Sprintf("request %d: host response object holds Id=%d after the call", r.id, r.respID))
 		}
 		for k, v := range r.resCopy {
